@@ -4,6 +4,7 @@
 // `I ok`.  Also: the Gallina model of link_holes against the real static link_holes (M vs I).
 // Reaches the static functions by including src/clipper_tools.cpp.
 #include <algorithm>
+#include <array>
 #include <gdstk/gdstk.hpp>
 #include "clipper_tools.cpp"
 #include "clip_common.hpp"
@@ -560,7 +561,148 @@ static void replay_bool(Out& out, Rng& g, const std::string& payload) {
     if (!parse_group(s, B, (int64_t)S, (int)K)) return;
     run_bool(out, g, A, B, (int64_t)S, "replay", true);
 }
+// ---------------------------------------------------------------- pinned campaign on a tiny grid
+// Rectangles with integer corners on a 10 x 10 grid of 8-unit cells: the class in which the vendored Clipper's hole linkage is known
+// to fail on a few inputs (findings c05-boolean-error / bool-hole-as-polygon).  The campaign is generated from a FIXED stream, not
+// from the run's seed, so that its inputs can be named: known_findings.json lists the indices that fail on the recorded tree, and a
+// failure on ANY other index is reported.  Oracle (exact, independent of the library): membership of every cell centre in A op B
+// from the rectangles themselves versus coverage by the returned polygons (crossing number; centres are 4 units from every edge).
+typedef std::array<int64_t, 4> GRect;  // x0 y0 x1 y1 in cells
+static bool grid_in(const std::vector<GRect>& G, int i, int j) {
+    for (auto& r : G)
+        if (i >= r[0] && i < r[2] && j >= r[1] && j < r[3]) return true;
+    return false;
+}
+static bool poly_covers(const Polygon* p, double x, double y) {
+    bool in = false;
+    uint64_t n = p->point_array.count;
+    for (uint64_t i = 0, j = n - 1; i < n; j = i++) {
+        Vec2 a = p->point_array[i], b = p->point_array[j];
+        if ((a.y > y) != (b.y > y) && x < (b.x - a.x) * (y - a.y) / (b.y - a.y) + a.x) in = !in;
+    }
+    return in;
+}
+static std::vector<GRect> pinned_group(Rng& pg, int n, int64_t G) {
+    std::vector<GRect> v;
+    for (int i = 0; i < n; i++) {
+        int64_t x = pg.range(0, G - 1), y = pg.range(0, G - 1);
+        v.push_back(GRect{{x, y, x + pg.range(1, G - x), y + pg.range(1, G - y)}});
+    }
+    return v;
+}
+static void pinned_pair(Rng& pg, std::vector<GRect>& A, std::vector<GRect>& B) {
+    if (pg.below(3) == 0) {
+        // a strip, a cell spanning its full height, a block sharing the strip's far edge over the cell (+ optional extras)
+        int64_t h = pg.range(1, 2), x0 = pg.range(0, 2), len = pg.range(4, 7), y0 = pg.range(2, 4);
+        int64_t ca = x0 + pg.range(1, len - 2), cb = std::min<int64_t>(x0 + len - 1, ca + pg.range(1, 2));
+        if (cb <= ca) cb = ca + 1;
+        A = {GRect{{x0, y0, x0 + len, y0 + h}}};
+        int64_t bx = std::max<int64_t>(0, ca - pg.range(0, 2));
+        B = {GRect{{ca, y0, cb, y0 + h}}, GRect{{bx, y0 + h, std::min<int64_t>(10, bx + pg.range(cb - ca, len)), std::min<int64_t>(10, y0 + h + pg.range(1, 3))}}};
+        if (pg.coin()) B.push_back(pinned_group(pg, 1, 8)[0]);
+        if (pg.coin()) A.push_back(GRect{{x0, y0 + h, x0 + pg.range(1, len), std::min<int64_t>(10, y0 + h + pg.range(1, 2))}});
+        int tr = (int)pg.below(8);
+        auto sym = [&](GRect& r) {
+            int64_t x0_ = r[0], y0_ = r[1], x1_ = r[2], y1_ = r[3];
+            if (tr & 1) { int64_t t = 10 - x1_; x1_ = 10 - x0_; x0_ = t; }
+            if (tr & 2) { int64_t t = 10 - y1_; y1_ = 10 - y0_; y0_ = t; }
+            if (tr & 4) { std::swap(x0_, y0_); std::swap(x1_, y1_); }
+            r = GRect{{x0_, y0_, x1_, y1_}};
+        };
+        for (auto& r : A) sym(r);
+        for (auto& r : B) sym(r);
+        if (pg.coin()) std::swap(A, B);
+    } else {
+        int64_t G = pg.range(5, 8);
+        A = pinned_group(pg, 1 + (int)pg.below(4), G);
+        B = pinned_group(pg, 1 + (int)pg.below(4), G);
+    }
+}
+static std::string ser_grects(const std::vector<GRect>& v) {
+    std::string s = hex_u64(v.size());
+    for (auto& r : v)
+        for (int k = 0; k < 4; k++) s += " " + hex_i64(r[k]);
+    return s;
+}
+static void run_pinned(Out& out, long idx, const std::vector<GRect>& A, const std::vector<GRect>& B) {
+    auto mk = [](const std::vector<GRect>& G, Array<Polygon*>& arr) {
+        for (auto& r : G) {
+            DPoly p = {Vec2{8.0 * r[0], 8.0 * r[1]}, Vec2{8.0 * r[2], 8.0 * r[1]}, Vec2{8.0 * r[2], 8.0 * r[3]}, Vec2{8.0 * r[0], 8.0 * r[3]}};
+            arr.append(make_polygon(p));
+        }
+    };
+    Array<Polygon*> a = {}, b = {};
+    mk(A, a);
+    mk(B, b);
+    std::string payload = std::to_string(idx) + " A " + ser_grects(A) + " B " + ser_grects(B);
+    guard_begin(out, "pin", payload, "c05-boolean-crash");
+    static const char* names[4] = {"OR", "AND", "NOT", "XOR"};
+    std::string bad;
+    for (int op = 0; op < 4; op++) {
+        Array<Polygon*> r = {};
+        ErrorCode e = boolean(a, b, OPS[op], 1.0, r);
+        int wrong = 0, wi = -1, wj = -1;
+        for (int i = 0; i < 10; i++)
+            for (int j = 0; j < 10; j++) {
+                bool ina = grid_in(A, i, j), inb = grid_in(B, i, j);
+                bool want = op == 0 ? (ina || inb) : op == 1 ? (ina && inb) : op == 2 ? (ina && !inb) : (ina != inb);
+                bool got = false;
+                for (uint64_t k = 0; k < r.count && !got; k++) got = poly_covers(r[k], 8.0 * i + 4, 8.0 * j + 4);
+                if (want != got) {
+                    if (!wrong) { wi = i; wj = j; }
+                    wrong++;
+                }
+            }
+        if (e != ErrorCode::NoError || wrong) {
+            char buf[160];
+            snprintf(buf, sizeof buf, " %s: error_code=%d wrong_cells=%d first=(%d,%d)", names[op], (int)e, wrong, wi, wj);
+            bad += buf;
+        }
+        free_array(r);
+    }
+    guard_end();
+    std::string id = out.add("pin", payload);
+    out.count("pin:pairs");
+    out.I(id, "ok");
+    if (!bad.empty()) {
+        out.count("pin:failing");
+        out.P(id, "FAIL c05-grid#" + std::to_string(idx) + " boolean() on integer rectangles (8-unit cells): cell centres covered differ from A op B -" + bad);
+    }
+    free_array(a);
+    free_array(b);
+}
+static void pinned_campaign(Out& out) {
+    Rng pg(0xC05C05C05ULL);
+    const long N = 40000;  // the same inputs in both tiers: their indices are what known_findings.json refers to
+    for (long i = 0; i < N; i++) {
+        std::vector<GRect> A, B;
+        pinned_pair(pg, A, B);
+        run_pinned(out, i, A, B);
+    }
+}
+static void replay_pinned(Out& out, const std::string& payload) {
+    // "<idx> A n x0 y0 x1 y1 ... B n ..."
+    const char* s = payload.c_str();
+    long idx = strtol(s, (char**)&s, 10);
+    std::vector<GRect> G[2];
+    for (int w = 0; w < 2; w++) {
+        while (*s == ' ') s++;
+        if (*s != (w ? 'B' : 'A')) return;
+        s++;
+        i128 n;
+        if (!parse_i128(s, n)) return;
+        for (i128 k = 0; k < n; k++) {
+            i128 v[4];
+            for (int q = 0; q < 4; q++)
+                if (!parse_i128(s, v[q])) return;
+            G[w].push_back(GRect{{(int64_t)v[0], (int64_t)v[1], (int64_t)v[2], (int64_t)v[3]}});
+        }
+    }
+    run_pinned(out, idx, G[0], G[1]);
+}
+
 static void run_case(Out& out, Rng& g, const std::string& kind, const std::string& payload) {
+    if (kind == "pin") { replay_pinned(out, payload); return; }
     if (kind == "lh") replay_lh(out, payload);
     else if (kind == "bool" || kind == "bool-crash") replay_bool(out, g, payload);
 }
@@ -583,6 +725,7 @@ int main(int argc, char** argv) {
         return 0;
     }
     for (auto& c : load_corpus(argc > 4 ? argv[4] : NULL)) run_case(out, g, c.first, c.second);
+    pinned_campaign(out);
     long N = g_thorough ? 8000 : 260;
     for (int dir = 0; dir < 4; dir++) gen_lopsided_box(out, g, dir);
     for (long i = 0; i < N; i++) {
